@@ -76,11 +76,10 @@ class Pi4QPSKModulator(BaseModulator):
         # Store just one constellation for compatibility with test
         self.register_buffer("constellation", qpsk)
 
-        # Bit patterns for symbols (Gray coded or binary)
-        if self.gray_coded:
-            bit_patterns = torch.tensor([[0, 0], [0, 1], [1, 1], [1, 0]], dtype=torch.float)
-        else:
-            bit_patterns = torch.tensor([[0, 0], [0, 1], [1, 0], [1, 1]], dtype=torch.float)
+        # Bit patterns for symbols: forward() maps the bit pair (b0, b1) to table row 2*b0 + b1 in both modes, so row v
+        # is labelled by the binary expansion of v; Gray coding is realised by the order of the angles above
+        # (pi/4: 00, 3pi/4: 01, 5pi/4: 11, 7pi/4: 10)
+        bit_patterns = torch.tensor([[0, 0], [0, 1], [1, 0], [1, 1]], dtype=torch.float)
 
         self.register_buffer("bit_patterns", bit_patterns)
 
@@ -168,11 +167,12 @@ class Pi4QPSKDemodulator(BaseDemodulator):
 
     _use_rotated: torch.Tensor  # Type annotation for the buffer
 
-    def __init__(self, soft_output: bool = False, *args, **kwargs) -> None:
+    def __init__(self, soft_output: bool = False, gray_coded: bool = True, *args, **kwargs) -> None:
         """Initialize the π/4-QPSK demodulator.
 
         Args:
             soft_output: Whether to output soft LLR values even when noise_var is not provided
+            gray_coded: Whether the modulator uses Gray coding (must match the modulator's option)
             *args: Variable length argument list.
             **kwargs: Arbitrary keyword arguments.
         """
@@ -181,7 +181,8 @@ class Pi4QPSKDemodulator(BaseDemodulator):
         self.soft_output = soft_output
 
         # Create reference modulator to access constellations
-        self.modulator = Pi4QPSKModulator()
+        self.gray_coded = gray_coded
+        self.modulator = Pi4QPSKModulator(gray_coded=gray_coded)
 
         # Keep track of which constellation to use for demodulation
         self.register_buffer("_use_rotated", torch.tensor(False))
